@@ -1,6 +1,8 @@
 import Vflow.Proofs.PipelineAcct
 import Vflow.Gen.WorkerIR
 import Vflow.Props.C08
+import Vflow.Model.Ipfix
+import Vflow.Model.V9
 /-!
 # C13 — each received datagram is accounted for and published at most once
 
@@ -243,6 +245,105 @@ example :
     (outcome v5Codec (v5Codec.decode () [] C08.exPacket).1).isSome = true ∧
     counts v5Codec .onMsg (v5Codec.decode () [] (C08.exPacket.take 71)).1 = false ∧
     outcome v5Codec (v5Codec.decode () [] (C08.exPacket.take 71)).1 = none := by decide +kernel
+
+/-! ## IPFIX and NetFlow v9: counted iff `Decode` returned a message, offered iff it holds a record -/
+
+
+/-- the message a worker holds after `Decode`: `none` = `(nil, err)` -/
+def msgOf (addr : Bytes) : Except Err (Hdr × List Record × List Err) → Option (Bytes × Hdr × List Record)
+  | .ok (h, recs, _) => some (addr, h, recs)
+  | .error _ => none
+
+/-- the pipeline's codec parameter for a flow decoder `dec` with template cache (IPFIX, NetFlow v9): a message iff `Decode`
+returned one, the worker's data-set test, a `JSONMarshal` that never fails -/
+def flowCodec (dec : Cache → Bytes → Bytes → Except Err (Hdr × List Record × List Err) × Cache)
+    (mar : Bytes → Hdr → List Record → Bytes) : Codec where
+  Cache := Cache
+  Msg := Bytes × Hdr × List Record
+  decode := fun c addr bs => (msgOf addr (dec c addr bs).1, (dec c addr bs).2)
+  hasData := fun m => !m.2.2.isEmpty
+  marshal := fun m => some (mar m.1 m.2.1 m.2.2)
+
+/-- how often a finished datagram is counted as decoded / offered to the queue, by what its decode returned -/
+def decodedTimes : Except Err (Hdr × List Record × List Err) → Nat
+  | .ok _ => 1 | .error _ => 0
+def offeredTimes : Except Err (Hdr × List Record × List Err) → Nat
+  | .ok (_, [], _) => 0 | .ok _ => 1 | .error _ => 0
+
+theorem msgOf_counts (addr : Bytes) (r : Except Err (Hdr × List Record × List Err)) :
+    (if (msgOf addr r).isSome = true then 1 else 0) = decodedTimes r := by
+  cases r with
+  | ok m => obtain ⟨h, recs, es⟩ := m; simp [msgOf, decodedTimes]
+  | error e => simp [msgOf, decodedTimes]
+
+theorem msgOf_offered (mar : Bytes → Hdr → List Record → Bytes) (addr : Bytes)
+    (r : Except Err (Hdr × List Record × List Err)) :
+    (if ((msgOf addr r).bind fun m => if (!m.2.2.isEmpty) = true then some (mar m.1 m.2.1 m.2.2) else none).isSome = true
+      then 1 else 0) = offeredTimes r := by
+  cases r with
+  | ok m => obtain ⟨h, recs, es⟩ := m; cases recs <;> simp [msgOf, offeredTimes]
+  | error e => simp [msgOf, offeredTimes]
+
+theorem flowCodec_counts (dec : Cache → Bytes → Bytes → Except Err (Hdr × List Record × List Err) × Cache)
+    (mar : Bytes → Hdr → List Record → Bytes) (c' : Cache) (addr bs : Bytes) :
+    (if counts (flowCodec dec mar) .onMsg ((flowCodec dec mar).decode c' addr bs).1 = true then 1 else 0) =
+      decodedTimes (dec c' addr bs).1 := msgOf_counts addr _
+
+theorem flowCodec_offered (dec : Cache → Bytes → Bytes → Except Err (Hdr × List Record × List Err) × Cache)
+    (mar : Bytes → Hdr → List Record → Bytes) (c' : Cache) (addr bs : Bytes) :
+    (if (outcome (flowCodec dec mar) ((flowCodec dec mar).decode c' addr bs).1).isSome = true then 1 else 0) =
+      offeredTimes (dec c' addr bs).1 := msgOf_offered mar addr _
+
+/-- **C13 (IPFIX / NetFlow v9 shape, in the property's words)**: for every number of workers, every datagram sequence and
+every schedule of an `.onMsg`-canonical worker program, a datagram whose iteration is over was counted once as received
+and — with `c'` the template cache in force when it was decoded — counted as decoded exactly once if `Decode` returned
+a message and not at all if it returned an error; and offered to the outgoing queue exactly once if that message holds
+at least one record, not at all otherwise: a template-only datagram, a datagram whose sets are all unknown, and an
+undecodable one give rise to no message (the seed C13-i published the worker's previous payload for the first kind). -/
+theorem flow_counted_and_offered
+    (dec : Cache → Bytes → Bytes → Except Err (Hdr × List Record × List Err) × Cache)
+    (mar : Bytes → Hdr → List Record → Bytes)
+    (hc : Canonical .onMsg cfg.prog) {c : Cache} {mem0 : BufId → Bytes} {s : State (flowCodec dec mar)}
+    (hr : Reach cfg (init (flowCodec dec mar) c mem0) s) (d : Dgram) (hf : d ∈ s.fin) :
+    nK 0 s.log d.id = 1 ∧
+    ∃ c' : Cache, nK 2 s.log d.id = decodedTimes (dec c' d.addr d.bytes).1 ∧
+      nK 3 s.log d.id = offeredTimes (dec c' d.addr d.bytes).1 := by
+  obtain ⟨_, c', _, h0, _, h2, h3⟩ := finished_account (spec := .onMsg) hc hr d hf
+  exact ⟨h0, c', h2.trans (flowCodec_counts dec mar c' d.addr d.bytes),
+    h3.trans (flowCodec_offered dec mar c' d.addr d.bytes)⟩
+
+/-- the IPFIX instance (`Ipfix.decode`, any marshal function) -/
+theorem ipfix_counted_and_offered (mar : Bytes → Hdr → List Record → Bytes)
+    (hc : Canonical .onMsg cfg.prog) {c : Cache} {mem0 : BufId → Bytes} {s : State (flowCodec Ipfix.decode mar)}
+    (hr : Reach cfg (init (flowCodec Ipfix.decode mar) c mem0) s) (d : Dgram) (hf : d ∈ s.fin) :
+    nK 0 s.log d.id = 1 ∧
+    ∃ c' : Cache, nK 2 s.log d.id = decodedTimes (Ipfix.decode c' d.addr d.bytes).1 ∧
+      nK 3 s.log d.id = offeredTimes (Ipfix.decode c' d.addr d.bytes).1 :=
+  flow_counted_and_offered Ipfix.decode mar hc hr d hf
+
+/-- the NetFlow v9 instance -/
+theorem v9_counted_and_offered (mar : Bytes → Hdr → List Record → Bytes)
+    (hc : Canonical .onMsg cfg.prog) {c : Cache} {mem0 : BufId → Bytes} {s : State (flowCodec V9.decode mar)}
+    (hr : Reach cfg (init (flowCodec V9.decode mar) c mem0) s) (d : Dgram) (hf : d ∈ s.fin) :
+    nK 0 s.log d.id = 1 ∧
+    ∃ c' : Cache, nK 2 s.log d.id = decodedTimes (V9.decode c' d.addr d.bytes).1 ∧
+      nK 3 s.log d.id = offeredTimes (V9.decode c' d.addr d.bytes).1 :=
+  flow_counted_and_offered V9.decode mar hc hr d hf
+
+
+set_option maxRecDepth 20000 in
+/-- non-vacuity: a template-only message is counted and not offered; the data message for it is not offered before the
+template is known (no record) and offered after; a malformed message is neither counted nor offered -/
+example :
+    let tmpl : Bytes := [0,10,0,28, 0,0,0,0, 0,0,0,1, 0,0,0,0, 0,2,0,12, 1,0,0,1, 0,4,0,1]
+    let data : Bytes := [0,10,0,21, 0,0,0,0, 0,0,0,2, 0,0,0,0, 1,0,0,5, 17]
+    let bad : Bytes := [0,10,0,20,0,0,0,0,0,0,0,1,0,0,0,0,1,0,0,3,9,9]
+    let c1 := (Ipfix.decode [] [10,0,0,1] tmpl).2
+    (decodedTimes (Ipfix.decode [] [10,0,0,1] tmpl).1, offeredTimes (Ipfix.decode [] [10,0,0,1] tmpl).1) = (1, 0) ∧
+    (decodedTimes (Ipfix.decode [] [10,0,0,1] data).1, offeredTimes (Ipfix.decode [] [10,0,0,1] data).1) = (1, 0) ∧
+    (decodedTimes (Ipfix.decode c1 [10,0,0,1] data).1, offeredTimes (Ipfix.decode c1 [10,0,0,1] data).1) = (1, 1) ∧
+    (decodedTimes (Ipfix.decode c1 [10,0,0,1] bad).1, offeredTimes (Ipfix.decode c1 [10,0,0,1] bad).1) = (0, 0) := by
+  refine ⟨by rfl, by rfl, by rfl, by rfl⟩
 
 /-! ## non-vacuity and mutants -/
 
